@@ -70,7 +70,11 @@ def handle (op : String) (j : Json) : Option Json :=
       (if sw.configfile != [] then ["sw-config"] else ["search"]) ++
       (if env.layerroot != [] then ["env-layerroot"] else []) ++
       (if sw.basepath == [] && env.layerroot == [] then ["no-explicit-base"] else [])
-    some (obj [("model", model), ("holds", Json.bool (impl == spec)), ("expected", spec),
+    -- which error is the model's business (compared with the implementation's where the harness
+    -- can tell it); the property asks that it IS an error
+    let isErr (o : Json) : Bool := (getStr o "cls").startsWith "err" || getStr o "cls" == "?unclassified"
+    let holds := if isErr spec then isErr impl else impl == spec
+    some (obj [("model", model), ("holds", Json.bool holds), ("expected", spec),
                ("tags", Json.arr (tags.map Json.str).toArray),
                ("trivial", Json.bool (start == []))])
   | _ => none
